@@ -2077,10 +2077,16 @@ func (c *BytecodeCompiler) compileBreakExpressionNode(node *ast.BreakExpressionN
 
 	jumpOffsetId := c.emitLoadValue(value.Undefined, location)
 	c.offsetValueIds = append(c.offsetValueIds, jumpOffsetId)
-	c.addLoopJump(labelName, bytecodeBreakFinallyLoopJump, jumpOffsetId, location)
 
 	c.emitValue(value.SmallInt(finallyCount).ToValue(), location)
 	c.emit(location.StartPos.Line, bytecode.JUMP_TO_FINALLY)
+
+	// once the finally blocks have run, execution resumes here:
+	// close the upvalues of the scopes being left, like a plain `break`, then leave the loop
+	c.bytecode.Values[jumpOffsetId] = value.SmallInt(c.nextInstructionOffset()).ToValue()
+	c.leaveScopeOnBreak(location.StartPos.Line, labelName)
+	breakJumpOffset := c.emitJump(location.StartPos.Line, bytecode.JUMP)
+	c.addLoopJump(labelName, bytecodeBreakLoopJump, breakJumpOffset, location)
 }
 
 func (c *BytecodeCompiler) leaveScopeOnContinue(line int, label string) {
@@ -2139,10 +2145,16 @@ func (c *BytecodeCompiler) compileContinueExpressionNode(node *ast.ContinueExpre
 
 	jumpOffsetId := c.emitLoadValue(value.Undefined, location)
 	c.offsetValueIds = append(c.offsetValueIds, jumpOffsetId)
-	c.addLoopJump(labelName, bytecodeContinueFinallyLoopJump, jumpOffsetId, location)
 
 	c.emitValue(value.SmallInt(finallyCount).ToValue(), location)
 	c.emit(location.StartPos.Line, bytecode.JUMP_TO_FINALLY)
+
+	// once the finally blocks have run, execution resumes here:
+	// close the upvalues of the scopes being left, like a plain `continue`, then start the next iteration
+	c.bytecode.Values[jumpOffsetId] = value.SmallInt(c.nextInstructionOffset()).ToValue()
+	c.leaveScopeOnContinue(location.StartPos.Line, labelName)
+	continueJumpOffset := c.emitJump(location.StartPos.Line, bytecode.LOOP)
+	c.addLoopJumpTo(loop, bytecodeContinueLoopJump, continueJumpOffset)
 }
 
 // Patch loop jump addresses for `break` and `continue` expressions.
